@@ -114,7 +114,6 @@ def run(ctx):
         for b in range(NOPS):
             jobs.append((conc, repo, 2, 2, False, ((6, 0), (b, 1))))   # cold image: static initialisation, visible points
         jobs.append((conc, repo, 1, 0, False, ((5, 0), (5, 1))))    # full, every block edge
-        jobs.append((conc, repo, 1, 0, True, ((5, 1), (0, 0))))
     else:
         for pr in main_pairs:
             jobs.append((conc, repo, 2, 0, True, pr))            # full: every block edge, warm image
